@@ -30,6 +30,8 @@ def key_fn(case, obs, verdict):
         return "%s@hdr:util.DecodeHTTPConfigHeaders" % verdict.split(" ")[0].replace("BAD:", "")
     if f[0] == "prop":
         return "%s@prop:confutil.PropertyTagResolver" % verdict.split(" ")[0].replace("BAD:", "")
+    if f[0] == "app":
+        return "%s:%s@app:%s(%s)" % (verdict.split(" ")[0].replace("BAD:", ""), f[3], _unhex(f[1]), _unhex(f[2]))
     off = 3 if f[0] == "comp" else 1
     what = verdict.split(" ")[0].replace("BAD:", "")
     mut = f[off].split(":")[0]
@@ -55,6 +57,9 @@ def what_fn(case, obs, verdict):
     if f[0] == "prop":
         return "%s (property file %r, key %r; the implementation answered %s)" % (
             verdict.replace("BAD:", ""), _unhex(f[1])[:80], _unhex(f[2]), obs[:60])
+    if f[0] == "app":
+        return "%s (component %s %s, mutation %s at /%s; the implementation answered %s)" % (
+            verdict.replace("BAD:", ""), _unhex(f[1]), _unhex(f[2]), f[3], "/".join(_path(f[4])), obs[:60])
     off = 3 if f[0] == "comp" else 1
     return "%s (mutation %s at /%s; the implementation answered %s)" % (
         verdict.replace("BAD:", ""), f[off].split(":")[0], "/".join(_path(f[off + 1])), obs[:40])
@@ -69,7 +74,7 @@ def run(ctx):
               "placeholder); direct cases of the header-list decoder and of the property-file reader; distinct = distinct case lines"),
         key_fn=key_fn, what_fn=what_fn,
         translators=[("schema", "ConfigSchemaGen.v")],
-        bridge_files=["Gen/ConfigSchema_bridge.v", "Properties/C17_depth.v", "Properties/C17_ctor.v"],
+        bridge_files=["Gen/ConfigSchema_bridge.v", "Gen/ConfigApplied_bridge.v", "Properties/C17_depth.v", "Properties/C17_ctor.v", "Properties/C17_applied.v"],
         trusted=[
             "translator harness/cmd/translate schema (reflection over the real plugin registry after the CLI's imports; package harness/internal/a16schema)",
             "verif hooks in /repo: core/plugin/verif_schema.go (read-only registry listing), cli/verif_export.go (exports readConfig)",
